@@ -633,6 +633,13 @@ func (p *Parser) parsePrimaryExpression() (ast.Expression, error) {
 			op = ast.Plus
 		}
 		p.advance()
+		// A chain of signs ("- - - a") recurses without passing through parseExpression:
+		// count every level against the depth limit.
+		p.depth++
+		defer func() { p.depth-- }()
+		if p.depth > MaxRecursionDepth {
+			return nil, p.recursionDepthError()
+		}
 		operand, err := p.parseJSONExpression()
 		if err != nil {
 			return nil, err
@@ -902,7 +909,14 @@ func (p *Parser) parsePrimaryExpression() (ast.Expression, error) {
 		}
 
 		// NOT followed by other expression (boolean negation)
-		// Parse at comparison level for proper precedence: NOT (a > b), NOT active
+		// Parse at comparison level for proper precedence: NOT (a > b), NOT active.
+		// "NOT NOT NOT x" recurses without passing through parseExpression: count every
+		// level against the depth limit.
+		p.depth++
+		defer func() { p.depth-- }()
+		if p.depth > MaxRecursionDepth {
+			return nil, p.recursionDepthError()
+		}
 		expr, err := p.parseComparisonExpression()
 		if err != nil {
 			return nil, err
@@ -916,6 +930,16 @@ func (p *Parser) parsePrimaryExpression() (ast.Expression, error) {
 	return nil, goerrors.UnexpectedTokenError(
 		p.currentToken.Type.String(),
 		p.currentToken.Literal,
+		models.Location{Line: 0, Column: 0},
+		"",
+	)
+}
+
+// recursionDepthError reports that nesting exceeded MaxRecursionDepth.
+func (p *Parser) recursionDepthError() error {
+	return goerrors.RecursionDepthLimitError(
+		p.depth,
+		MaxRecursionDepth,
 		models.Location{Line: 0, Column: 0},
 		"",
 	)
